@@ -19,6 +19,8 @@ import (
 	stdx509 "crypto/x509"
 	"encoding/pem"
 	"fmt"
+	"github.com/google/certificate-transparency-go/x509"
+	"github.com/google/certificate-transparency-go/x509util"
 	"github.com/google/trillian"
 	"os"
 	"path/filepath"
@@ -27,6 +29,7 @@ import (
 	"testing"
 	"testing/synctest"
 	"time"
+	"verif/engine/rep"
 
 	"verif/engine/enum"
 	"verif/ref/fe"
@@ -175,6 +178,8 @@ func (c *checker) live(t *testing.T) {
 	leaves = append(leaves, lv{I1, []*node{R1}})
 	c.liveTwoPools(t, rootsFile, keyAny, dir)
 	c.pathHistories()
+	c.siblingAnchors()
+	c.laxCertificateWithTrailingBytes()
 	cfgs := liveConfigs(r.Thorough())
 	r.Set("live_instance_configurations", len(cfgs))
 	done := enum.ParFor(len(cfgs), r.Expired, func(i int) {
@@ -394,4 +399,121 @@ func (c *checker) pathHistories() {
 			}
 		}
 	})
+}
+
+// siblingAnchors: two trust anchors with the same subject and key (a CA certified by two parents, both
+// copies configured as anchors; neither parent trusted). A chain may name either of them explicitly, or
+// neither; it is admitted and handed on with the anchor it named.
+func (c *checker) siblingAnchors() {
+	r := c.r
+	ua := buildCA("SA-Ua", caSpec{cn: "SA untrusted a", key: "p256-8", bc: 1}, nil)
+	ub := buildCA("SA-Ub", caSpec{cn: "SA untrusted b", key: "p256-7", bc: 1}, nil)
+	x1 := buildCA("SA-X1", caSpec{cn: "SA X", key: "p256-1", parent: ua, bc: 1}, nil)
+	x2 := buildCA("SA-X2", caSpec{cn: "SA X", key: "p256-1", parent: ub, bc: 1}, nil)
+	i := buildCA("SA-I", caSpec{cn: "SA I", key: "p384-0", parent: x1, bc: 1}, nil)
+	i2 := buildCA("SA-I2", caSpec{cn: "SA I2", key: "rsa2048-1", parent: i, bc: 1}, nil)
+	l1 := buildLeaf("SA-leaf1", "p256-3", i, kCert, []string{"server"})
+	l2 := buildLeaf("SA-leaf2", "p256-3", i2, kPre, []string{"server"})
+	for _, n := range []*node{ua, ub, x1, x2, i, i2, l1, l2} {
+		derLabel[string(n.DER)] = n.id
+	}
+	ws, es := windows(false), expiries(false)
+	off := optSpec{win: ws[0], exp: es[0], rejN: "none"}
+	for oi, order := range [][]*node{{x1, x2}, {x2, x1}} {
+		pool := x509util.NewPEMCertPool()
+		for _, a := range order {
+			cert, err := x509.ParseCertificate(a.DER)
+			if x509.IsFatal(err) {
+				r.Violation("harness", "anchor does not parse: "+err.Error(), nil)
+				return
+			}
+			pool.AddCert(cert)
+		}
+		type sub struct {
+			name  string
+			pre   bool
+			chain []*node
+			ends  []*node // acceptable last elements of the path handed on
+		}
+		subs := []sub{
+			{"[leaf, I, X1]", false, []*node{l1, i, x1}, []*node{x1}},
+			{"[leaf, I, X2]", false, []*node{l1, i, x2}, []*node{x2}},
+			{"[leaf, I]", false, []*node{l1, i}, []*node{x1, x2}},
+			{"[precert, I2, I, X1]", true, []*node{l2, i2, i, x1}, []*node{x1}},
+			{"[precert, I2, I, X2]", true, []*node{l2, i2, i, x2}, []*node{x2}},
+			{"[precert, I2, I]", true, []*node{l2, i2, i}, []*node{x1, x2}},
+		}
+		for _, sb := range subs {
+			r.Eval(1)
+			r.Nontrivial(fmt.Sprintf("sibling-anchors|%d|%s", oi, sb.name))
+			vopts, rej := instantiate(off, leafNA, pool)
+			be := reflog.New(1)
+			f := c.frontEnd(be, vopts, rej)
+			var raws [][]byte
+			for _, n := range sb.chain {
+				raws = append(raws, n.DER)
+			}
+			rsp, _ := f.AddChain(sb.pre, raws)
+			desc := map[string]any{"trust_anchors_in_order": []string{order[0].id, order[1].id}, "note": "X1 and X2 have the same subject and key; their own issuers are not trusted", "submitted": sb.name}
+			q := be.CallsOf("QueueLeaf")
+			if rsp.Status != 200 || len(q) != 1 {
+				r.Violation("sibling anchors: a chain that names one of two same-name same-key trust anchors is refused", fmt.Sprintf("anchors [%s, %s], submitted %s: HTTP %d %s", order[0].id, order[1].id, sb.name, rsp.Status, strings.TrimSpace(string(rsp.Body))), desc)
+				continue
+			}
+			gp, bad := queuedPath(q[0].Req.(*trillian.QueueLeafRequest).Leaf, sb.pre)
+			okEnd := false
+			for _, e := range sb.ends {
+				if len(gp) > 0 && string(gp[len(gp)-1]) == string(e.DER) {
+					okEnd = true
+				}
+			}
+			prefixOK := len(gp) >= len(raws) || len(gp) == len(raws)
+			for k := range raws {
+				if k < len(gp) && string(gp[k]) != string(raws[k]) {
+					prefixOK = false
+				}
+			}
+			if bad != "" || !okEnd || !prefixOK {
+				r.Violation("sibling anchors: the path handed on is not the submitted chain ending in the anchor it named", fmt.Sprintf("anchors [%s, %s], submitted %s: handed on [%s] %s", order[0].id, order[1].id, sb.name, c.pathLabels(gp), bad), desc)
+			}
+		}
+	}
+}
+
+// laxCertificateWithTrailingBytes: a certificate that only the lenient decoding accepts (serial number with
+// a superfluous leading 00 octet) followed by extra bytes is not a certificate: it does not parse, whatever
+// the plain certificate does.
+func (c *checker) laxCertificateWithTrailingBytes() {
+	r := c.r
+	var I1, R1 *node
+	for _, b := range c.w.bases {
+		if b.name == "one-int" {
+			I1, R1 = b.path[1], b.path[2]
+		}
+	}
+	_ = R1
+	exts := []pki.Ext{pki.ExtSAN("lax.example"), pki.ExtAKI(keyID(I1.T.Key)), pki.ExtUnknown(7, false, []byte{5, 0})}
+	cert := pki.Build(pki.Tmpl{SerialContent: []byte{0x00, 0x00, 0x17}, Issuer: I1.T.Subject, Subject: pki.CN("lax-serial"), NotBefore: pki.T0, NotAfter: leafNA, Key: pki.LoadKey("p256-3"), Exts: exts}, I1.T.Key)
+	derLabel[string(cert.DER)] = "leaf-with-non-minimal-serial"
+	ws, es := windows(false), expiries(false)
+	off := optSpec{win: ws[0], exp: es[0], rejN: "none"}
+	vopts, rej := instantiate(off, leafNA, c.pool)
+	plain := 0
+	for _, tail := range [][]byte{nil, {0}, {0x30, 0x00}, {0xff, 0xff, 0xff}} {
+		r.Eval(1)
+		be := reflog.New(1)
+		f := c.frontEnd(be, vopts, rej)
+		raw := append(append([]byte{}, cert.DER...), tail...)
+		rsp, _ := f.AddChain(false, [][]byte{raw, I1.DER})
+		if tail == nil {
+			plain = rsp.Status // whatever the log does with the lax-only certificate itself is not judged here
+			r.Set("lax_only_certificate_status", plain)
+			continue
+		}
+		r.Nontrivial(fmt.Sprintf("lax-trailing|%x", tail))
+		if rsp.Status == 200 || len(be.CallsOf("QueueLeaf")) != 0 {
+			r.Violation("a chain element that is a (lenient-only) certificate followed by extra bytes is admitted", fmt.Sprintf("leaf with a non-minimal serial + trailing %x: HTTP %d, %d leaves queued (the certificate alone: HTTP %d)", tail, rsp.Status, len(be.CallsOf("QueueLeaf")), plain),
+				map[string]any{"trailing": fmt.Sprintf("%x", tail), "certificate": rep.Hex(cert.DER)})
+		}
+	}
 }
